@@ -64,7 +64,8 @@ func RunSemaphore(c *sim.Ctx) {
 	trouble := runBubble(c.T, func() {
 		capacity := dag.Metric{Num: idx.Event(capNum), Size: uint64(capSize)}
 		warnings := 0
-		sem := datasemaphore.New(capacity, func(received, processing, releasing dag.Metric) { warnings++ })
+		var ml modelLock
+		sem := datasemaphore.New(capacity, func(received, processing, releasing dag.Metric) { ml.do(func() { warnings++ }) })
 		var calls []*semCall
 		var held dag.Metric // model: granted minus released
 		terminated := false
@@ -76,6 +77,8 @@ func RunSemaphore(c *sim.Ctx) {
 				return
 			}
 			got := sem.Processing()
+			ml.mu.Lock()
+			defer ml.mu.Unlock()
 			// grants that completed since the last observation enter the model here
 			for _, cl := range calls {
 				if cl.done && cl.ok && cl.end >= 0 && !cl.counted() {
@@ -124,11 +127,17 @@ func RunSemaphore(c *sim.Ctx) {
 			switch s.op.K {
 			case "acquire":
 				cl := &semCall{id: len(calls), w: w, timeout: time.Duration(s.op.A[3]) * time.Millisecond, start: now, end: -1}
-				calls = append(calls, cl)
-				wasTerminated := terminated
+				wasTerminated := false
+				ml.do(func() {
+					calls = append(calls, cl)
+					wasTerminated = terminated
+					fired = append(fired, "acquire")
+				})
 				t0 := time.Now()
 				go func() {
 					ok := sem.Acquire(w, cl.timeout)
+					ml.mu.Lock()
+					defer ml.mu.Unlock()
 					cl.ok, cl.end, cl.done = ok, now+time.Since(t0), true
 					// ---- per-call oracle, evaluated at return ----
 					over := w.Num > capacity.Num || w.Size > capacity.Size
@@ -158,9 +167,10 @@ func RunSemaphore(c *sim.Ctx) {
 						probes = append(probes, "acquire_over_capacity_refused")
 					}
 				}()
-				fired = append(fired, "acquire")
 			case "try":
 				ok := sem.TryAcquire(w)
+				ml.mu.Lock()
+				defer ml.mu.Unlock()
 				fits := held.Num+w.Num <= capacity.Num && held.Size+w.Size <= capacity.Size
 				if terminated {
 					fits = fits && w.Num == 0 && w.Size == 0 && false
@@ -178,6 +188,7 @@ func RunSemaphore(c *sim.Ctx) {
 				}
 				fired = append(fired, "try")
 			case "release":
+				ml.mu.Lock()
 				if held.Num < w.Num || held.Size < w.Size {
 					held = dag.Metric{}
 					expectWarnings++
@@ -192,17 +203,20 @@ func RunSemaphore(c *sim.Ctx) {
 						probes = append(probes, "grant_after_release")
 					}
 				}
-				sem.Release(w)
 				fired = append(fired, "release")
+				ml.mu.Unlock()
+				sem.Release(w)
 			case "terminate":
-				for _, cl := range calls {
-					if !cl.done {
-						probes = append(probes, "terminate_with_blocked_callers")
+				ml.do(func() {
+					for _, cl := range calls {
+						if !cl.done {
+							probes = append(probes, "terminate_with_blocked_callers")
+						}
 					}
-				}
-				terminated = true
+					terminated = true
+					fired = append(fired, "terminate")
+				})
 				sem.Terminate()
-				fired = append(fired, "terminate")
 			}
 		}
 		drive(plan, fire, observe)
